@@ -17,6 +17,7 @@ pub fn check(ctx: &mut Ctx, doc: &Tree, path: &JPath, text: &str) {
     let enc = refcodec::encode(doc);
     let info = || format!("path={:?} doc={} bytes={}", text, doc.show(), hex(&enc));
     ctx.count("select.calls");
+    ctx.evals += 1;
     let expected = refpath::eval(path, doc);
     let class = match &expected {
         Outcome::Items(v) => match v.len() {
@@ -114,7 +115,7 @@ fn totality(ctx: &mut Ctx, doc: &Tree, text: &str) {
 
 pub fn gen_doc(rng: &mut Rng, i: u64) -> Tree {
     if i % 3001 == 11 {
-        return gen::big_doc(rng);
+        return gen::big_doc(rng, i % 2 == 0);
     }
     match i % 16 {
         0 => gen::scalar(rng, false),
